@@ -86,7 +86,8 @@ def build_registry(spec, variant=0):
     (loading) registry starts from different bytes. Returns (io, arrays: name -> ndarray, meta)."""
     import sopht.utils as spu
 
-    dim, dtype = spec["dim"], np.dtype(spec["dtype"]).type
+    dim, io_dtype = spec["dim"], np.dtype(spec["dtype"]).type
+    dtype = np.dtype(spec.get("array_dtype", spec["dtype"])).type  # registered arrays may differ in precision from the IO object
     content = spec["content"] if variant == 0 else "ordinary"
     naming = spec["naming"]
     grid_size = (5, 6) if dim == 2 else (3, 4, 5)
@@ -110,7 +111,7 @@ def build_registry(spec, variant=0):
         for n_, a in fields.items():
             arrays[("E", n_)] = a
         return io, arrays, {"grid_size": grid_size, "dx": dx}
-    io = spu.IO(dim=dim, real_dtype=dtype)
+    io = spu.IO(dim=dim, real_dtype=io_dtype)
     if ns + nv > 0:
         io.define_eulerian_grid(origin=origin * spec.get("origin_scale", 1.0) + spec.get("origin_shift", 0.0),
                                 dx=np.full(dim, dx) * spec.get("dx_scale", 1.0), grid_size=np.array(grid_size) + np.array(spec.get("grid_delta", [0] * dim)))
@@ -328,6 +329,7 @@ def run(r) -> None:
         "dim": [3, 2], "dtype": ["float64", "float32"], "eul": EUL, "ngrids": [1, 0, 2],
         "g0": grid_opts, "g1": grid_opts, "N0": MARKERS, "N1": [3, 2, 4],
         "content": CONTENT, "naming": NAMING, "time": [1.2345678901234567, 0.0, 1e-310],
+        "array_dtype": [None, "float64", "float32"],
     }
     specs = []
     seen = set()
@@ -338,6 +340,8 @@ def run(r) -> None:
         if pt["ngrids"] >= 2:
             grids.append([pt["g1"][0], pt["g1"][1], pt["N1"]])
         spec = dict(dim=pt["dim"], dtype=pt["dtype"], eul=pt["eul"], grids=grids, content=pt["content"], naming=pt["naming"], io_class="IO", time=pt["time"])
+        if pt["array_dtype"] is not None and pt["array_dtype"] != pt["dtype"]:
+            spec["array_dtype"] = pt["array_dtype"]
         key = repr(sorted(spec.items(), key=lambda kv: kv[0]))
         if key in seen:
             continue
@@ -346,10 +350,13 @@ def run(r) -> None:
     # the N == dim column in full (all field-count options, both dims, both dtypes)
     for dim, dt, g, nm in itertools.product((2, 3), ("float64", "float32"), grid_opts, ("default", "custom")):
         specs.append(dict(spec=dict(dim=dim, dtype=dt, eul="s1", grids=[[g[0], g[1], dim]], content="ordinary", naming=nm, io_class="IO")))
+    for dim, dt, adt, content in itertools.product((2, 3), ("float64", "float32"), ("float64", "float32"), CONTENT):
+        if adt != dt:
+            specs.append(dict(spec=dict(dim=dim, dtype=dt, array_dtype=adt, eul="s1v1", grids=[[1, 1, 4], [1, 1, 3]], content=content, naming="custom", io_class="IO")))
     for dim, dt, eul, content in itertools.product((2, 3), ("float64", "float32"), ("s1", "v1", "s1v1", "s2v2"), CONTENT if not quick else CONTENT[:3]):
         specs.append(dict(spec=dict(dim=dim, dtype=dt, eul=eul, grids=[], content=content, naming="custom", io_class="EulerianFieldIO")))
     r.run_cases("roundtrip", "roundtrip", specs, chunksize=8)
-    r.run_cases("rod-io", "rod", [dict(dim=d, dtype=dt, n_elems=n) for d in (2, 3) for dt in ("float64",) for n in (2, 3, 5)])
+    r.run_cases("rod-io", "rod", [dict(dim=d, dtype=dt, n_elems=n) for d in (2, 3) for dt in ("float64", "float32") for n in (2, 3, 5)])
     r.run_cases("mismatch", "mismatch", [dict(dim=d, dtype=dt, kind=k) for d in (2, 3) for dt in ("float64", "float32") for k in MISMATCHES])
     r.bounds = {"lattice_axes": {k: len(v) for k, v in axes.items()}, "deviation": 2 if quick else 3, "roundtrip_cases": len(specs), "mismatch_kinds": MISMATCHES}
     r.extra["rule"] = "one state per registry configuration (save -> inspect layout -> load into fresh arrays -> byte compare); mismatch: one deviation of the loading registry at a time"
